@@ -435,6 +435,10 @@ func c14Run(t *testing.T, c *evid.Collector) {
 			{ini("d"), {K: "part", Ref: 0, PartN: 1, Body: b("1")}, {K: "part", Ref: 0, PartN: 2, Body: b("22")}, {K: "part", Ref: 0, PartN: 5, Body: b("55555")}, {K: "part", Ref: 0, PartN: 10000, Body: b("x")}},
 			{ini("a"), ini("d"), {K: "part", Ref: 1, PartN: 3, Body: b("333")}, {K: "part", Ref: 1, PartN: 7, Body: b("7")}, {K: "abort", Ref: 0}, ini("a/c"), ini("a/b")},
 			{ini("a"), ini("d"), ini("a/b"), ini("a"), ini("d"), ini("a/b"), ini("a"), ini("d"), ini("a/b"), ini("a"), ini("d"), ini("a/b"), ini("a"), {K: "abort", Ref: 3}},
+			// a completion the backend refuses (file system backends: the key collides with the live key "a"):
+			// the upload was neither completed nor aborted, so it stays listed with its parts
+			{ini("a"), {K: "part", Ref: 0, PartN: 1, Body: b("1")}, {K: "complete", Ref: 0, Parts: []prog.Part{{N: 1}}}, ini("d"), ini("a/b"), {K: "part", Ref: 2, PartN: 1, Body: b("one")},
+				{K: "part", Ref: 2, PartN: 4, Body: b("four")}, {K: "complete", Ref: 2, Parts: []prog.Part{{N: 1}, {N: 4}}}, ini("a/c")},
 		}
 		for _, k := range kinds {
 			for _, h := range hs {
